@@ -192,20 +192,20 @@ theorem stepAt_inv : ∀ (t : Tree) (p : List Bool) (acc : Body) (c : Ctx) (a : 
             subst hl hr
             cases z with
             | some zb =>
-                refine ⟨rfl, rfl, by simp [WF], ?_, ?_, ?_, ?_, ?_, ?_⟩
-                · simp [pend]
+                refine ⟨rfl, rfl, by simp [WF, hlb], ?_, ?_, ?_, ?_, ?_, ?_⟩
+                · simp [pend, rng_self]
                 · simp [hc, hlb]
                 · simp
-                · simp
+                · simp [cnt]
                 · simp [active]
-                · simp
+                · simp [active]
             | none =>
-                refine ⟨rfl, rfl, by simp [WF], ?_, hc, ?_, ?_, ?_, ?_⟩
-                · simp [pend]
+                refine ⟨rfl, rfl, by simp [WF, hlb], ?_, hc, ?_, ?_, ?_, ?_⟩
+                · simp [pend, rng_self]
                 · simp
-                · simp
+                · simp [cnt]
                 · simp [active]
-                · simp
+                · simp [active]
           · exact noop_inv _ _ _ hwf hc
       | cons b p =>
           cases b with
